@@ -265,7 +265,7 @@ def run(ctx):
                 applies.append(e)
             elif m == "insert":
                 inserts.append(e)
-            elif m in ("get", "get_mut", "from_iter", "retained_event_content_keys", "some", "not_of_type", "field_missing_from_object", "into"):
+            elif m in ("get", "get_mut", "from_iter", "retained_event_content_keys", "some", "not_of_type", "field_missing_from_object", "into", "new"):
                 continue
             else:
                 others.append(e)
@@ -283,8 +283,17 @@ def run(ctx):
         else:
             good &= not cont
         if because == ["Some"]:
-            good &= len(inserts) == 1 and D.show(inserts[0][1][0]) == "event" and inserts[0][1][1] == D.C("unsigned") and \
-                "'redacted_because', because.Some.0" in D.show(inserts[0][1][2])
+            ev_ins = [e for e in inserts if D.show(e[1][0]) == "event"]
+            fresh_ins = [e for e in inserts if D.show(e[1][0]) == "BTreeMap::new()"]
+            good &= len(ev_ins) == 1 and ev_ins[0][1][1] == D.C("unsigned") and len(ev_ins) + len(fresh_ins) == len(inserts)
+            if good and not fresh_ins:
+                # unsigned built in one expression: from_iter([("redacted_because", because)])
+                good &= "'redacted_because', because.Some.0" in D.show(ev_ins[0][1][2])
+            elif good:
+                # unsigned built as a fresh map that receives the one entry and is then stored
+                good &= len(fresh_ins) == 1 and fresh_ins[0][1][1] == D.C("redacted_because") and "because.Some.0" in D.show(fresh_ins[0][1][2]) and \
+                    p.effects.index(fresh_ins[0]) < p.effects.index(ev_ins[0]) and \
+                    re.fullmatch(r"(?:CanonicalJsonValue::Object|(?:\w+::)*(?:into|from))\(BTreeMap::new\(\)\)", D.show(ev_ins[0][1][2])) is not None
         else:
             good &= not inserts
         ctx.check(good, "C04.entry", key, w.where(f), bad_msg=f"unexpected writes: applies={shows} inserts={[[D.show(x) for x in e[1]] for e in inserts]} others={[e[0] for e in others]}")
